@@ -38,3 +38,24 @@ pub enum ByteLoops2 {
     #[regex(b"0(?s-u:.){3}")] Four,
     #[regex(b"[0-9]+")] Num,
 }
+
+// if-chain conditions (states with at most two outgoing edges): one range with isolated holes,
+// `matches!(byte, lo..=hi) && byte != x1 && byte != x2`, as a non-looping edge
+#[derive(Logos, Debug, PartialEq, Clone)]
+#[logos(utf8 = false)]
+pub enum ByteHoles {
+    #[regex(b"'(?-u:[^'\\\\])'")] Char,            // 0..=255 minus two isolated bytes
+    #[regex(b"/(?-u:[^*/])")] SlashOther,          // minus two bytes five apart
+    #[regex(b"%(?-u:[\x10-\x12\x14-\x16])")] Pct,   // 0x10..=0x16 minus 0x13: two comparisons and one exception
+    #[regex(b"@(?-u:[^\r\n])")] AtOther,
+    #[regex(b"[a-z]+")] Word,
+}
+
+#[derive(Logos, Debug, PartialEq, Clone)]
+#[logos(utf8 = false)]
+pub enum ByteHoles2 {
+    #[regex(b"=(?-u:[^=])")] EqOther,              // one hole
+    #[regex(b"!(?-u:[^!?])!")] Bang,               // two holes 0x21, 0x3f
+    #[regex(b"~(?-u:[\x00-\x40\x42-\xff])")] Tilde,
+    #[regex(b"[0-9]+")] Num,
+}
